@@ -194,11 +194,30 @@ class Ctx:
             stats["compared"] += 1
             explored = [lvlib.outcome_str(it) for it in its]
             eset = set(explored)
+            missed = sorted(o for o in outs if not o.startswith("ok") and o not in eset) \
+                if (completeness and done[1] == "ok") else []
+            if missed:
+                # executions that should have failed: what the implementation returns instead is not
+                # judged separately
+                failures.append((p, "missed_failure", missed[0]))
+                continue
             if soundness and not F.shared_atomic_rw(p) and not F.has(p, "fence"):
                 stats["sound_checked"] += 1
-                bad = [o for o in explored if o not in outs]
+                vclasses = set(o.split(" ")[0].split(":")[0] for o in outs)
+                # a failing iteration is judged by the class of its failure (where exactly the failure is
+                # detected depends on the detector), a passing one by everything it returned
+                bad = [o for o in explored if (o not in outs if o.startswith("ok")
+                                               else o.split(" ")[0].split(":")[0] not in vclasses)]
                 if bad:
-                    failures.append((p, "forbidden", bad[0]))
+                    # prefer the failing iteration as the exhibit
+                    failures.append((p, "forbidden", bad[-1] if not bad[-1].startswith("ok") else bad[0]))
+            elif soundness and done[1] != "ok":
+                # with weakly ordered atomics only the class of a failure is judged by this reference
+                stats["sound_checked"] += 1
+                verdicts = set(o.split(" ")[0].split(":")[0] for o in outs)
+                mine = explored[-1].split(" ")[0].split(":")[0]
+                if mine not in verdicts:
+                    failures.append((p, "forbidden", explored[-1]))
             if completeness and done[1] == "ok":
                 miss = sorted(o for o in outs if o not in eset)
                 fail = [o for o in miss if not o.startswith("ok")]
@@ -260,11 +279,16 @@ class Ctx:
         unlisted = 0
         for p, kind, outcome in failures:
             fid = None
-            if p not in differing:
-                for k in self.known:
-                    if F.match(k, p, kind, outcome):
-                        fid = k["id"]
-                        break
+            for k in self.known:
+                if F.match(k, p, kind, outcome):
+                    fid = k["id"]
+                    break
+            if fid and p in differing:
+                # the program shows a listed defect AND a deviation from the twin: the failure cannot be
+                # told apart from the listed one, so it is not offered as the failing input; the
+                # deviation itself is reported by the caller (correspondence)
+                self.cov["ambiguous_on_differing_programs"] = self.cov.get("ambiguous_on_differing_programs", 0) + 1
+                continue
             if fid:
                 self.note_finding(fid)
             else:
